@@ -290,7 +290,9 @@ def install_check_bad(R):
           ensures=[("bad_results_removed_good_ones_kept", "CheckBadEffect(self.location, delete_bad)"),
                    ("nothing_else_touched", "CheckBadProgress(self.location, result_files, slen(result_files), delete_bad)"),
                    ("ids", "is_seq(result)")],
-          raises={"AnyError": dict(), "OSError": dict(), "FileNotFoundError": dict(), "EOFError": dict()})
+          # an unreadable result is what check_bad is for: no exception may escape because of one (the sown batch files are complete: precondition)
+          raises={},
+          raises_only=set())
     return R
 
 
